@@ -85,6 +85,22 @@ def correspondence(r):
             nbad += 1
             r.violation({"component": "magics.sysinfo2magic", "version_info": info, "release_name_in_tables": name, "returned": got, "table_magic_of_that_release": want,
                          "why": "sysinfo2magic(version_info) does not give the magic the tables record for that release"})
+    # a magic the tables call PyPy is PyPy to the loader; and load_module reports the file's own magic back (48, PyPy 3.2's b'0\\0', is
+    # reported as 3187 - the one documented rewrite)
+    ispy = dict((int(k), v) for k, v in gen.get("is_pypy", []))
+    for k, name in gen["magicint2version"]:
+        if "pypy" in name.lower():
+            r.case(("pypy-name", k), nontrivial=True)
+            if not ispy.get(int(k)):
+                r.violation({"component": "magics.PYPY3_MAGICS / load.is_pypy", "magic": k, "name_in_tables": name,
+                             "why": "the tables name this magic a PyPy magic but load.is_pypy() says it is not: its files are decoded with CPython's opcode table"})
+                break
+    for k, got in gen.get("reported_magic", []):
+        r.case(("reported", k), nontrivial=True)
+        if got is not None and got != (3187 if k == 48 else k):
+            r.violation({"component": "load_module_from_file_object", "file_magic": k, "reported_magic": got,
+                         "why": "load_module reports another magic (and reads the file by that magic's rules) than the one the file carries"})
+            break
     # magic2int on byte strings of length 0..6
     bss = [[], [1], [1, 2, 3], [1, 2, 3, 4, 5], [0x99, 0x02, 0x99, 0x00], [0xcb, 0x0d, 13, 10]]
     for _ in range(600 if r.tier == "quick" else 5000):
